@@ -153,3 +153,40 @@ pub fn bloom_replay_native(n: u16, budget: u16) -> u32 {
         0
     }
 }
+
+/// Native replay body for the E2 query `e2_bloom_period_index` (C14), through the public `TokenLog` interface of
+/// the real `BloomTokenLog` with a token lifetime that is not a whole number of seconds (2.5 s): token A (issued
+/// at t0) is used, token B (issued 4 s later) is used, then B is presented again - and must be refused, as must
+/// every replay in a longer mixed history.
+pub fn bloom_fractional_lifetime_native(_x: u8) -> u32 {
+    #[cfg(feature = "bloom")]
+    {
+        let lifetime = Duration::from_millis(2500);
+        let t0 = UNIX_EPOCH + Duration::from_secs(1_000_000);
+        let log = crate::BloomTokenLog::default();
+        assert!(log.check_and_insert(1, t0, lifetime).is_ok());
+        assert!(log.check_and_insert(2, t0 + Duration::from_secs(4), lifetime).is_ok());
+        assert!(log.check_and_insert(2, t0 + Duration::from_secs(4), lifetime).is_err(), "a token was accepted a second time (lifetime 2.5 s)");
+        // a longer history on a monotone clock: every accepted nonce is refused when it comes back while still valid
+        let log = crate::BloomTokenLog::default();
+        let mut accepted: Vec<(u128, SystemTime)> = Vec::new();
+        for i in 0..200u64 {
+            let issued = t0 + Duration::from_millis(700 * i);
+            let nonce = 1000 + i as u128;
+            if log.check_and_insert(nonce, issued, lifetime).is_ok() {
+                accepted.push((nonce, issued));
+            }
+            // replay the most recent accepted tokens that have not expired relative to this token's issue time
+            for (n, at) in accepted.iter().rev().take(3) {
+                if *at + lifetime > issued {
+                    assert!(log.check_and_insert(*n, *at, lifetime).is_err(), "token {} accepted twice", n);
+                }
+            }
+        }
+        1
+    }
+    #[cfg(not(feature = "bloom"))]
+    {
+        0
+    }
+}
